@@ -173,6 +173,12 @@ func (g *gen) prelude() []zn.Stmt {
 			}},
 			ret(&zn.Str{V: "无"}),
 		}},
+		// a method received as an input and called through that name: the SAME call site runs
+		// whichever method THIS call was handed
+		&zn.FuncDef{Name: "应用", Params: []string{"某法", "值"}, Body: []zn.Stmt{
+			show("应用-in", v("值")),
+			ret(&zn.Call{Name: "某法", Args: []zn.Expr{v("值")}}),
+		}},
 		// mutual recursion
 		&zn.FuncDef{Name: "偶", Params: []string{"N"}, Body: []zn.Stmt{
 			&zn.If{Conds: []zn.Expr{bin("==", v("N"), num(0))}, Blocks: [][]zn.Stmt{{ret(&zn.BoolLit{V: true})}}},
@@ -268,7 +274,18 @@ func (g *gen) mainOps() []zn.Stmt {
 	fresh := 0
 	nm := func(p string) string { fresh++; return fmt.Sprintf("%s%d", p, fresh) }
 	for i := 0; i < n; i++ {
-		switch g.pick(25, "op") {
+		switch g.pick(27, "op") {
+		case 25, 26: // one call site, different callees: through an input, and through a loop variable
+			fns := []string{"双", "和", "层", "偶", "奇", "深抛"}
+			a, b := fns[g.pick(len(fns), "hf1")], fns[g.pick(len(fns), "hf2")]
+			if g.pick(2, "hform") == 0 {
+				out = append(out, show("apply-1", &zn.Call{Name: "应用", Args: []zn.Expr{v(a), g.numArg(1)}}), show("apply-2", &zn.Call{Name: "应用", Args: []zn.Expr{v(b), num(float64(g.pick(4, "harg")))}}))
+				g.labels["callee-received-as-input"] = true
+			} else {
+				lv := nm("操作")
+				out = append(out, &zn.ForEach{Names: []string{lv}, E: &zn.ListLit{Items: []zn.Expr{v(a), v(b), v(a)}}, Body: []zn.Stmt{show("loop-call", &zn.Call{Name: lv, Args: []zn.Expr{num(float64(g.pick(4, "larg")))}})}})
+				g.labels["callee-held-by-loop-variable"] = true
+			}
 		case 23, 24: // the value of a call that leaves a loop over a collection through 输出
 			nent := 2 + g.pick(5, "nent")
 			target := float64(g.pick(3, "target"))
